@@ -40,7 +40,7 @@ EXPECTED_PROBES = ["probe_get_ok", "probe_post_ok", "probe_unknown_path", "probe
                    "probe_concurrent_pair", "probe_keepalive_reuse", "probe_disconnect_mid_request", "probe_webc", "probe_nonascii_param",
                    "probe_ws_pushed", "probe_ws_sent", "probe_ws_peer_close", "probe_ws_mixed_list", "probe_ws_object",
                    "probe_ws_handler_amends_its_message", "probe_ws_same_text_repeated", "probe_post_chunked", "probe_post_multipart",
-                   "probe_klongloop_evaluation_beside_requests",
+                   "probe_klongloop_evaluation_beside_requests", "probe_ws_binary_frame",
                    "probe_handler_rebound_to_non_function", "probe_request_while_handler_is_not_a_function", "probe_post_with_query_string",
                    "probe_ws_send_mutated_dict", "probe_ws_two_connections"]
 WALL_CAP = {"quick": 400, "thorough": 3600}
@@ -525,6 +525,7 @@ def scenario_ws(ch, cfg):
     hbad = []
     two = ch.draw(2, "twoconns") == 1
     amending = ch.draw(2, "amending") == 1
+    binary_frames = ch.draw(3, "binary_frames") == 0
 
     def wsrec(x, y, z):
         """x: the connection the message arrived on, y: the message, z: the value of .ws.h inside the handler"""
@@ -603,7 +604,12 @@ def scenario_ws(ch, cfg):
                     stats["probe_ws_peer_close"] += 1
                     await sock.close()
                     break
-                await sock.send(json.dumps(m))
+                if binary_frames and ch.draw(2, "binframe"):
+                    # the same JSON text in a binary frame (peers written in other languages often send bytes): a message all the same
+                    stats["probe_ws_binary_frame"] += 1
+                    await sock.send(json.dumps(m).encode("utf-8"))
+                else:
+                    await sock.send(json.dumps(m))
                 pushed.append(m)
                 stats["probe_ws_pushed"] += 1
                 if isinstance(m, list) and len({type(x) for x in m}) > 1:
